@@ -1,6 +1,7 @@
 package main
 
 import (
+	"encoding/json"
 	"flag"
 	"fmt"
 	"os"
@@ -38,6 +39,7 @@ func cmdRun(args []string) {
 	seed := fs.Int64("seed", 1, "seed")
 	prop := fs.String("prop", "C01", "property / profile")
 	one := fs.Int("one", -1, "run only this case with trace")
+	dumpJSON := fs.Bool("json", false, "with -one: print the history as JSON")
 	fs.Parse(args)
 	p := profileByName(*prop)
 	rules := map[string]int{}
@@ -52,6 +54,10 @@ func cmdRun(args []string) {
 		h := genHistory(caseRand(*seed, "hist:"+*prop, i), p)
 		w := newWorld(h, true, *one >= 0)
 		w.Run()
+		if *one >= 0 && *dumpJSON {
+			b, _ := json.Marshal(h)
+			fmt.Println(string(b))
+		}
 		if *one >= 0 {
 			for _, l := range h.Describe() {
 				fmt.Println(l)
